@@ -256,6 +256,11 @@ func runC09(c *Ctx) {
 		return strings.HasPrefix(k, "Update-success-returns-Commit-result") || strings.HasPrefix(k, "Update-returns-function-error")
 	})
 	checkInvalidationAlwaysEvicts(c, "C09-R2")
+	checkDryRunFlagForwardedOrFalse(c, "C09-R2")
+	// nothing but the commit callback (and the loader) moves the in-memory next index: a reader that writes a
+	// snapshot's index back rewinds it behind a concurrent issuer (C08-R1's rule, taken over)
+	// (extendAddresses' eager stores are the recorded finding F5 of C08/C10 and are not repeated here)
+	checkIndexMirrorsOnlyAtCommit(c, "C09-R2", func(top string) bool { return top == "extendAddresses" })
 }
 
 // C09-R2 / R3: callback placement and single entry.
@@ -443,4 +448,62 @@ func inOnCommit(p *Program, fn *ssa.Function) bool {
 		}
 	}
 	return false
+}
+
+// checkDryRunFlagForwardedOrFalse: a transaction created as a dry run is rolled back with everything it derived — the
+// change address is not persisted and the branch index does not move — while its result looks like any other. A function
+// that returns that result as a real one (funds a packet, sends, publishes) must have created it for real: wherever a
+// wallet function calls one that takes a dryRun flag, it passes its own dryRun parameter on, or the constant false.
+// A constant true hands the caller a change address that the next request will be issued again.
+func checkDryRunFlagForwardedOrFalse(c *Ctx, rule string) {
+	p := c.P
+	n := 0
+	for _, fn := range p.FuncsIn("wallet") {
+		for _, ci := range callsOf(fn) {
+			call, ok := ci.(*ssa.Call)
+			if !ok {
+				continue
+			}
+			g := call.Call.StaticCallee()
+			if g == nil || fnPkgPath(g) != fnPkgPath(fn) {
+				continue
+			}
+			idx := -1
+			for i, prm := range g.Params {
+				if prm.Name() == "dryRun" && isBoolType(prm.Type()) {
+					idx = i
+				}
+			}
+			if idx < 0 || idx >= len(call.Call.Args) {
+				continue
+			}
+			n++
+			a := stripConv(call.Call.Args[idx])
+			okArg := false
+			if k, isK := a.(*ssa.Const); isK && k.Value != nil && k.Value.String() == "false" {
+				okArg = true
+			}
+			if prm, isPrm := a.(*ssa.Parameter); isPrm && isBoolType(prm.Type()) {
+				okArg = true
+			}
+			if fv, isFV := a.(*ssa.FreeVar); isFV {
+				if _, isPrm := freeVarRoot(fv).(*ssa.Parameter); isPrm {
+					okArg = true
+				}
+			}
+			if u, isLoad := a.(*ssa.UnOp); isLoad {
+				// a field of an options/request struct the caller was handed
+				if _, _, _, okf := fieldOf(u); okf {
+					okArg = true
+				}
+				if fv, isFV := u.X.(*ssa.FreeVar); isFV {
+					_ = fv
+					okArg = true
+				}
+			}
+			c.Check(rule, "dry-run-flag-forwarded-or-false:"+fnName(outermost(fn))+"->"+g.Name(), call.Pos(), okArg,
+				fnName(fn)+" creates the transaction it returns as a DRY RUN: the database transaction that derived the change address is rolled back, so the address is never persisted and the change index never moves — the next request is issued the same change address")
+		}
+	}
+	c.Floor(rule, "calls passing a dry-run flag", n, 3)
 }
